@@ -86,6 +86,7 @@ struct SeqEngine final : Engine {
     int L = 8;
     if (keykind == 1) L = focus == 16 ? static_cast<int>(r.range(1, 8)) : (nonrep ? static_cast<int>(r.range(10, 24)) : static_cast<int>(r.range(1, 24)));
     std::vector<std::string> pool;
+    bool deep = false;
     const auto shape = r.below(100);
     const size_t cap = focus == 8 ? (r.chance(0.2) ? 110 : 70) : (tier == "thorough" ? 600 : 320);
     std::string base(static_cast<size_t>(L), '\0');
@@ -107,10 +108,18 @@ struct SeqEngine final : Engine {
       while (s.size() < n) { std::string k(static_cast<size_t>(L), '\0'); for (auto& ch : k) ch = static_cast<char>(r.below(256)); s.insert(k); if (L == 1 && s.size() >= 256) break; }
       pool.assign(s.begin(), s.end());
     } else {
-      const int maxpos = nonrep ? L - 1 : std::min(L - 1, 7);
+      // deep byte-string shape: branching positions anywhere in a long key, consecutive ones at most 8 apart, so the
+      // full pool has compressed paths <= 7 bytes; a *subset* may not (a missing middle branch joins two paths), so the
+      // history generator below keeps the key set representable step by step with the reference radix tree M2
+      deep = keykind == 1 && !nonrep && L >= 10 && focus != 16 && r.chance(0.55);
+      const int maxpos = (nonrep || deep) ? L - 1 : std::min(L - 1, 7);
       const int nb = std::min<int>(static_cast<int>(r.range(1, 3)), maxpos + 1);
       std::set<int> ps;
-      if (nonrep) {  // at least one compressed path longer than 7 bytes
+      if (deep) {
+        int p = static_cast<int>(r.below(8));
+        const int want = static_cast<int>(r.range(2, 4));
+        while (p < L && static_cast<int>(ps.size()) < want) { ps.insert(p); p += 1 + static_cast<int>(r.below(8)); }
+      } else if (nonrep) {  // at least one compressed path longer than 7 bytes
         const int first = static_cast<int>(r.below(static_cast<uint64_t>(L - 9)));
         ps.insert(first);
         ps.insert(first + 9 + static_cast<int>(r.below(static_cast<uint64_t>(L - first - 9))));
@@ -132,6 +141,7 @@ struct SeqEngine final : Engine {
     std::set<std::string> present;
     std::vector<Op> ops;
     uint64_t vid = 0;
+    int deep_skipped = 0;
     const bool with_scans = focus == 2 || focus == 16 || focus == 0 || (focus == 10 && r.chance(0.3));
     const double scan_rate = focus == 2 ? 0.28 : 0.08;
     auto pick_present = [&]() -> std::string {
@@ -150,7 +160,7 @@ struct SeqEngine final : Engine {
       if (x < 50) return std::string(static_cast<size_t>(L), '\0');
       if (x < 60) return std::string(static_cast<size_t>(L), static_cast<char>(0xFF));
       std::string k = r.chance(0.7) ? pick_present() : pool[r.below(pool.size())];
-      const size_t p = r.below(static_cast<uint64_t>(std::min(L, 9)));
+      const size_t p = r.below(static_cast<uint64_t>(deep ? L : std::min(L, 9)));
       const auto y = r.below(4);
       const auto cur = static_cast<unsigned char>(k[p]);
       k[p] = static_cast<char>(y == 0 ? cur + 1 : (y == 1 ? cur - 1 : (y == 2 ? 0x00 : 0xFF)));
@@ -168,7 +178,7 @@ struct SeqEngine final : Engine {
         const auto sk = r.below(100);
         o.kind = sk < 20 ? S_SCAN : (sk < 55 ? S_SCAN_FROM : S_SCAN_RANGE);
         o.a = r.chance(0.55) ? 1 : 0;
-        o.b = r.chance(0.3) ? r.range(1, 6) : -1;
+        o.b = r.chance(0.3) ? (r.chance(0.75) ? r.range(1, 6) : r.range(1, static_cast<int64_t>(present.size()) + 2)) : -1;  // halt position: early, or anywhere up to past the end
         o.c = r.chance(0.5) ? 1 : 0;
         o.key = pick_bound();
         o.key2 = pick_bound();
@@ -196,11 +206,21 @@ struct SeqEngine final : Engine {
           o.a = static_cast<int64_t>(++vid);
           const auto lx = r.below(100);
           o.b = lx < 15 ? r.range(0, 7) : (lx < 96 || focus == 8 || focus == 16 ? r.range(8, 40) : r.range(300, 5000));
-          present.insert(o.key);
+          if (deep && !present.count(o.key)) {
+            present.insert(o.key);
+            if (!shape_of(present).representable) { present.erase(o.key); o.kind = S_GET; deep_skipped++; }
+          } else {
+            present.insert(o.key);
+          }
         } else {
           o.kind = S_REMOVE;
           o.key = r.chance(0.88) ? pick_present() : pick_absent();
-          present.erase(o.key);
+          if (deep && present.count(o.key)) {
+            present.erase(o.key);
+            if (!shape_of(present).representable) { present.insert(o.key); o.kind = S_GET; deep_skipped++; }
+          } else {
+            present.erase(o.key);
+          }
         }
       }
       if (o.key2.empty()) o.key2 = std::string(static_cast<size_t>(L), '\0');
@@ -208,6 +228,8 @@ struct SeqEngine final : Engine {
       ops.push_back(std::move(o));
     }
     c.threads.push_back(std::move(ops));
+    c.set_knob("deep", deep ? 1 : 0);
+    (void)deep_skipped;
     if (focus == 8 && dbkind == 2) c.set_knob("qsbr_faults", r.chance(0.5) ? 1 : 0);
     return c;
   }
@@ -262,6 +284,7 @@ struct SeqEngine final : Engine {
     st.bump(dbn[c.knob("dbkind", 0) % 3]);
     st.bump(c.knob("keykind", 0) ? "histories_byte_string_keys" : "histories_uint64_keys");
     if (c.knob("nthreads", 1) > 1) st.bump("histories_issued_from_several_threads");
+    if (c.knob("deep", 0)) st.bump("histories_deep_byte_string_keys_branching_beyond_byte_8");
     if (focus == 8) res.nontrivial = o.faults_delivered + o.length_errors >= 1;
     else if (focus == 10 || focus == 0) res.nontrivial = kinds >= 3;
     else res.nontrivial = c.threads[0].size() >= 20 && (o.scans > 0 || focus != 2);
